@@ -280,6 +280,7 @@ func runC02(c *Ctx) {
 	c02Relational(c)
 	c02MTU(c)
 	c02Reject(c)
+	rdnssEveryServerChecked(c, "R-C02-2")
 	c02Strict(c)
 	c02Defaults(c)
 	c02Totality(c)
@@ -552,7 +553,8 @@ func c02Reject(c *Ctx) {
 		}},
 		{"duplicate-interface", "Parse", "every interface name unique", func(r rejection) bool {
 			return lastIs(r, func(a an.PathAtom) bool {
-				return a.Pos && filterKind(a) == "Seen" && a.Cond.Args[0].Args[1].IsField("Name")
+				k := seenKey(a)
+				return a.Pos && filterKind(a) == "Seen" && k != nil && k.IsField("Name")
 			})
 		}},
 		{"name-and-names", "parseInterfaces", "exactly one of name/names", func(r rejection) bool {
@@ -611,9 +613,12 @@ func c02Reject(c *Ctx) {
 			})
 		}},
 		{"prefix-deprecated-infinite-preferred", "parsePrefix", "deprecated implies finite", func(r rejection) bool {
-			return r.has(func(a an.PathAtom) bool { return a.Pos && a.Cond.IsField("Deprecated") }) && lastIs(r, func(a an.PathAtom) bool {
+			// (the two tests in either order: the rejection is decided by the later one)
+			dep := func(a an.PathAtom) bool { return a.Pos && a.Cond.IsField("Deprecated") }
+			inf := func(a an.PathAtom) bool {
 				return cmpAtom(a, func(x, y *an.Expr, op token.Token) bool { return isK(y, 4294967295*nsS) && op == token.EQL })
-			})
+			}
+			return r.has(dep) && r.has(inf) && (lastIs(r, inf) || lastIs(r, dep))
 		}},
 		{"route-wildcard-length", "parseRoute", "only ::/0 as route wildcard", func(r rejection) bool {
 			return r.has(atomCall(".IsUnspecified", true)) && lastIs(r, func(a an.PathAtom) bool {
@@ -621,9 +626,12 @@ func c02Reject(c *Ctx) {
 			})
 		}},
 		{"route-deprecated-infinite", "parseRoute", "deprecated implies finite", func(r rejection) bool {
-			return r.has(func(a an.PathAtom) bool { return a.Pos && a.Cond.IsField("Deprecated") }) && lastIs(r, func(a an.PathAtom) bool {
+			// (the two tests in either order: the rejection is decided by the later one)
+			dep := func(a an.PathAtom) bool { return a.Pos && a.Cond.IsField("Deprecated") }
+			inf := func(a an.PathAtom) bool {
 				return cmpAtom(a, func(x, y *an.Expr, op token.Token) bool { return isK(y, 4294967295*nsS) && op == token.EQL })
-			})
+			}
+			return r.has(dep) && r.has(inf) && (lastIs(r, inf) || lastIs(r, dep))
 		}},
 		{"prefixes-overlap", "parsePlugins", "no overlapping prefixes", func(r rejection) bool {
 			return bodyOnly(r, func(a an.PathAtom) bool {
@@ -756,8 +764,8 @@ func c02Reject(c *Ctx) {
 					return false
 				}
 				// the set is keyed by the normalised name: two spellings of one name are one name
-				key := a.Cond.Args[0].Args[1]
-				return isWireFormName(key)
+				key := seenKey(a)
+				return key != nil && isWireFormName(key)
 			})
 		}},
 		{"pref64-bad-prefix", "parsePlugins", "pref64 prefix is a canonical IPv6 CIDR", func(r rejection) bool {
